@@ -10,11 +10,12 @@ Open Scope N_scope.
             obs_threads [[res ; map+2 ; trace]] ; mains [[owner;listen;target;taddr+1;laddr+1]] ; glob ;
             cidx [[client;owner]] ; bycode [5] ; byid [5] ; claimset ; ticked ; admk? ; admission markers left ] *)
 Definition dec_cfg (v : tval) : cfg :=
-  {| use_claim := vbool (vnth 0 v); create_cleanup := vbool (vnth 1 v); use_adm := vbool (vnth 17 v); purge_revoked := false |}.
+  {| use_claim := vbool (vnth 0 v); create_cleanup := vbool (vnth 1 v); use_adm := vbool (vnth 17 v); purge_revoked := false; claim_lease := None |}.
 Definition dec_params (v : tval) : params :=
   let pre := map (fun e => (vn (vnth 0 e), vnat (vnth 1 e))) (vl (vnth 3 v)) in
   {| p_tgt := vn (vnth 5 v); p_taddr := vn (vnth 6 v); p_qmax := vnat (vnth 2 v);
-     p_pre := fun c => match find (fun e => N.eqb (fst e) c) pre with Some e => snd e | None => 0%nat end |}.
+     p_pre := fun c => match find (fun e => N.eqb (fst e) c) pre with Some e => snd e | None => 0%nat end;
+     p_win := 600 |}.   (* stall cells run on a 10-minute code; in the other cells the clock never moves *)
 Definition dec_code (v : tval) : option crec :=
   match vn (vnth 4 v) with
   | 0 => Some fresh_code
@@ -27,6 +28,7 @@ Definition dec_kind (e : tval) : kind :=
   | 0 => KAct (vn (vnth 1 e)) (vn (vnth 2 e) - 1) (negb (N.eqb (vn (vnth 2 e)) 0))
   | 1 => KRev
   | 3 => KList
+  | 4 => KStall (vn (vnth 1 e))
   | _ => KTick
   end.
 Definition dec_fault (e : tval) : option nat :=
@@ -43,6 +45,7 @@ Definition step_log (C : cfg) (P : params) (acc : st sh lo * list (nat * nat)) (
   let lg' := match nth_error (snd s) i with
              | Some t => match l_kind t, op_code (l_kind t) (l_pc t) with
                          | KTick, _ => lg
+                         | KStall _, _ => lg
                          | _, O => lg
                          | _, c => (i, c) :: lg
                          end
@@ -56,12 +59,12 @@ Definition model_run (v : tval) : st sh lo * list (nat * nat) :=
   (* a code revoked / activated during setup went through the real calls: with the claim patch its claim key is set *)
   let claimed0 := use_claim C && (N.eqb (vn (vnth 4 v)) 1 || N.eqb (vn (vnth 4 v)) 2) in
   fold_left (step_log C P) (map vnat (vl (vnth 8 v)))
-            ((set_tidx (set_claim (init_sh (dec_code v)) claimed0) (negb (N.eqb (vn (vnth 4 v)) 3)), dec_threads 0 (vl (vnth 7 v))), []).
+            ((set_tidx (set_claim_dl (init_sh (dec_code v)) claimed0 600) (negb (N.eqb (vn (vnth 4 v)) 3)), dec_threads 0 (vl (vnth 7 v))), []).
 
 Definition res_code (t : lo) : N :=
   match l_pc t with
   | PDone (ROk _) => 0 | PDone RRevoked => 0 | PDone RGone => 0 | PDone RListed => 0 | PDone RTick => 100 | PDone (RErr e) => e | PDone RUnmodelled => 999
-  | _ => match l_kind t with KTick => 0 | _ => 998 end
+  | _ => match l_kind t with KTick => 0 | KStall _ => 0 | _ => 998 end
   end.
 Definition res_map (t : lo) : N :=        (* map + 2 *)
   match l_kind t, l_pc t with
@@ -101,10 +104,10 @@ Definition check (v : tval) : bool :=
   (* per caller: result class, mapping, trace *)
   all2 (fun it ov =>
           let '(i, t) := it in
-          (if ticked then Bool.eqb (N.eqb (res_code t) 0) (N.eqb (vn (vnth 0 ov)) 0) || match l_kind t with KTick => true | _ => false end
+          (if ticked then Bool.eqb (N.eqb (res_code t) 0) (N.eqb (vn (vnth 0 ov)) 0) || match l_kind t with KTick => true | KStall _ => true | _ => false end
            else N.eqb (res_code t) (vn (vnth 0 ov)))
           && N.eqb (res_map t) (vn (vnth 1 ov))
-          && match l_kind t with KTick => true | _ => list_eqb (trace_of lg i) (nl (vnth 2 ov)) end)
+          && match l_kind t with KTick => true | KStall _ => true | _ => list_eqb (trace_of lg i) (nl (vnth 2 ov)) end)
        (combine idxs ths) (vl (vnth 9 v))
   && all2 (fun m ov => list_eqb (enc_main m) (nl ov)) (isort main_le (mains sh)) (vl (vnth 10 v))
   && list_eqb (map N.of_nat (isort Nat.leb (glob sh))) (nl (vnth 11 v))
